@@ -1,0 +1,7 @@
+//go:build !verif
+
+package jsonrpc
+
+// verifYield marks a named point of interest for the verification harness.
+// Without the `verif` build tag it is an empty function that is inlined away.
+func verifYield(point string, c *wsConn) {}
